@@ -13,6 +13,9 @@ correspondence: Regex.matchStr vs regexp.MatchString on strings drawn from every
                 ExportBinary / ExportBinaryNBits / ExportVerilogBinary on integer-like literals (all
                 widths 1..64, boundary values).  The property itself (unique matcher; round trip;
                 widths) is evaluated on every implementation line.
+entry points:   ImportUint (uint8/16/32/64, optionalBits), ImportBytes (+CastType) and ExportUint64 are
+                exercised on byte-distinct 64-bit values and compared with BMV.Numbers.importUint /
+                importBytes / exportUint64; the property is judged against the case's input value.
 direct search:  float16/32, fixed point, FXP, linear quantiser round trips are evaluated on the Go
                 side only (strconv / float arithmetic is not modelled in Lean): literal-first cases and
                 pattern-first cases (value built from a bit pattern with ImportBytes+CastType, every
@@ -273,6 +276,73 @@ def compare_nums(impl, model):
     return st, fails, mism
 
 
+def compare_uints(impl, model):
+    """VC lines (values built by ImportUint / ImportBytes+CastType).  The property is evaluated on the
+    implementation line against the *input* of the case (not against what the importer produced):
+    bytes, ExportUint64 and the decimal / hex / binary texts must denote the given value, and the
+    text must re-import to the same value, width and type.
+    -> stats, failures [(class, text, case, line)], mismatches [(case, impl, model)]"""
+    il = [l for l in impl.splitlines() if l.startswith("VC ")]
+    ml = [l for l in model.splitlines() if l.startswith("VC ")]
+    st = {"cases": len(il), "by_entry": {}, "ge_2_32": 0, "byte_distinct": 0, "roundtrips_ok": 0, "distinct": set()}
+    fails, mism = [], []
+    if model and len(il) != len(ml):
+        mism.append(("-", "%d lines" % len(il), "%d lines" % len(ml)))
+    for i, l in enumerate(il):
+        fs = l.split()
+        case = "V " + " ".join(fs[1:5])
+        f = kvs(fs[5:])
+        if model and i < len(ml) and ml[i] != l:
+            mism.append((case, l, ml[i]))
+        if "panic" in l or "imp=err" in l or "bad-case" in l:
+            fails.append(("import-entry-error", l[:300], case, l))
+            continue
+        if fs[1] == "uint":
+            w, v, ob = int(fs[2]), int(fs[3]), int(fs[4])
+            bits, ty, entry = (ob if ob > 0 else w), "unsigned", "ImportUint(uint%d)" % w
+        else:
+            bits, v, ty, entry = int(fs[2]), int.from_bytes(unhex(fs[3]), "big"), fs[4], "ImportBytes+" + fs[4]
+        st["by_entry"][entry] = st["by_entry"].get(entry, 0) + 1
+        if v >= 1 << 32:
+            st["ge_2_32"] += 1
+        if len(set(v.to_bytes(16, "little")[:8])) == 8:
+            st["byte_distinct"] += 1
+        st["distinct"].add((entry, v, bits))
+        bad = []
+        if f.get("ty") != ty or f.get("bits") != str(bits):
+            bad.append("type/bits %s/%s, expected %s/%d" % (f.get("ty"), f.get("bits"), ty, bits))
+        if le_val(f.get("bytes", "-")) != v:
+            bad.append("bytes %s denote %d, expected %d" % (f.get("bytes"), le_val(f.get("bytes", "-")), v))
+        if f.get("u64") != "!err" and f.get("u64") != str(v):
+            bad.append("ExportUint64 = %s, expected %d" % (f.get("u64"), v))
+        if f.get("u64") == "!err" and v < 1 << 64 and len(unhex(f.get("bytes", "-"))) <= 8:
+            bad.append("ExportUint64 fails")
+        try:
+            if int(f.get("eb", "x"), 2) != v:
+                bad.append("ExportBinary = %s, expected %s" % (f.get("eb"), bin(v)[2:]))
+        except ValueError:
+            bad.append("ExportBinary = %s" % f.get("eb"))
+        es = f.get("es", "")
+        want = {"unsigned": str(v), "hex": "0x<%d>%x" % (bits, v), "bin": "0b<%d>%s" % (bits, bin(v)[2:])}[ty]
+        if es != want:
+            bad.append("ExportString = %s, expected %s" % (es, want))
+        if bad:
+            fails.append(("import-entry-value", "%s: %s" % (entry, "; ".join(bad)), case, l))
+            continue
+        if f.get("rt") != "ok":
+            fails.append(("reimport-error", "ImportString(%s) fails" % es, case, l))
+        elif f.get("rty") != ty or le_val(f.get("rbytes", "-")) != v:
+            fails.append(("roundtrip", "%s -> %s -> ty=%s bytes=%s" % (case, es, f.get("rty"), f.get("rbytes")), case, l))
+        elif f.get("rbits") != str(bits):
+            if ty == "unsigned" and bits != 64 and f.get("rbits") == "64":
+                fails.append((K_UNSIGNED, "%s -> ExportString %s -> bits 64" % (case, es), case, l))
+            else:
+                fails.append(("roundtrip", "%s -> %s -> bits %s" % (case, es, f.get("rbits")), case, l))
+        else:
+            st["roundtrips_ok"] += 1
+    return st, fails, mism
+
+
 def eval_floats(text):
     """F lines -> stats, failures [(class, text, family, literal)]"""
     st = {"cases": 0, "by_family": {}, "rt_ok": 0, "import_rejected": 0, "distinct": set()}
@@ -466,6 +536,27 @@ def run(rep):
         broken.append("correspondence BMV.Numbers vs bmnumbers: %d disagreements, first on %r impl=%s model=%s"
                       % (len(nmism), show(nmism[0][0]), nmism[0][1][:300], nmism[0][2][:300]))
 
+    # the other import entry points: ImportUint (4 widths), ImportBytes (+CastType), ExportUint64
+    utexts = [harness(hbin, ["uintfile", f]) for f in corpus("uints")]
+    utexts.append(harness(hbin, ["uints", str(4000 if thorough else 300)]))
+    ust = {"cases": 0, "by_entry": {}, "ge_2_32": 0, "byte_distinct": 0, "roundtrips_ok": 0}
+    udistinct, ufails, umism = set(), [], []
+    for t in utexts:
+        model = oracle(t) if oracle_ok else ""
+        st, fails, mism = compare_uints(t, model)
+        for k in ("cases", "ge_2_32", "byte_distinct", "roundtrips_ok"):
+            ust[k] += st[k]
+        for a, b in st["by_entry"].items():
+            ust["by_entry"][a] = ust["by_entry"].get(a, 0) + b
+        udistinct.update(st["distinct"])
+        ufails += fails
+        umism += mism
+    for l in [x for x in utexts[-1].splitlines() if x.startswith("VC uint 64 ")][2:3]:
+        samples.append({"import_uint_case": l[:260]})
+    if umism:
+        broken.append("correspondence BMV.Numbers.importUint/importBytes vs bmnumbers: %d disagreements, first on %r impl=%s model=%s"
+                      % (len(umism), umism[0][0], umism[0][1][:300], umism[0][2][:300]))
+
     # float-like types: direct search on the implementation
     ftext = "".join(harness(hbin, ["floatfile", f]) for f in corpus("floats"))
     ftext += harness(hbin, ["floats", str(60000 if thorough else 6000)])
@@ -486,8 +577,13 @@ def run(rep):
                 "note": "input pat:<type>:<bits>:<hex> = the value built from that bit pattern (ImportBytes+CastType)"
                         if x[3].startswith("pat:") else "input is the literal first imported"}
 
+    def mk_uint(cls, x, n):
+        return {"property": PROP, "kind": cls, "input": x[2], "what": x[1], "implementation_line": x[3][:600], "mode": "uints"}
+
     nv = len(rep.violations)
     report_classes(rep, nfails, known, mk_num)
+    # (the width loss of a non-64-bit unsigned value is one finding, whichever entry point built the value)
+    report_classes(rep, [x for x in ufails if not (x[0] == K_UNSIGNED and any(y[0] == K_UNSIGNED for y in nfails))], known, mk_uint)
     report_classes(rep, ffails, known, mk_float)
     if len(rep.violations) > nv:
         found_input = True
@@ -507,23 +603,27 @@ def run(rep):
         buckets[b] = buckets.get(b, 0) + v
     nst_all["by_bits"] = buckets
     rep.coverage.update({
-        "evaluations": rst["strings"] * max(1, len(rows)) + nst_all.get("literals", 0) + fst["cases"],
-        "distinct_nontrivial": len(rdistinct) + len(ndistinct) + fdistinct,
+        "evaluations": rst["strings"] * max(1, len(rows)) + nst_all.get("literals", 0) + fst["cases"] + ust["cases"],
+        "distinct_nontrivial": len(rdistinct) + len(ndistinct) + fdistinct + len(udistinct),
         "rule": "regex: strings generated from each matcher's regexp/syntax tree (seeded), 0-3 mutations (delete/insert/replace/"
                 "newline/invalid UTF-8/non-ASCII digits/'.0' suffix), fixed near-misses; every string is judged by all matchers on "
                 "both sides. numbers: grid over widths 1..64 x {0,1,2^w-1,2^w} for 0u<>/0d<>/0b<>/0x<>, boundary decimals around "
                 "2^k, 2^63, 2^64, random structured literals, malformed stream. non-trivial = accepted by exactly one matcher / "
-                "imported successfully; distinct = distinct strings / distinct (type,bits,bytes) values. floats: literal-first "
+                "imported successfully; distinct = distinct strings / distinct (type,bits,bytes) values. floats: import entry points: ImportUint with uint8/16/32/64 (and optionalBits), ImportBytes "
+                "(+CastType hex/bin) on byte-distinct words (0x0102030405060708 ...), 2^k for every k, 2^(8j)+-1, single-byte and "
+                "all-but-one-byte masks, random words; judged against the case's input value, not the importer's output. floats: literal-first "
                 "(specials, denormals, random) and pattern-first (pat:<type>:<bits>:<hex>: fps/fxps at every s=1..32 x f=0..s with "
                 "all-ones/alternating/2^k+-1/random full-width patterns, raw float16/float32 patterns, quantiser bands)",
         "samples": samples[:6],
         "traces_validated_against_impl": rst["strings"] + nst_all.get("literals", 0),
-        "input_distribution": {"seed": seedinfo, "regex_strings": rst, "numbers": nst_all, "floats": fst,
+        "input_distribution": {"seed": seedinfo, "regex_strings": rst, "numbers": nst_all, "floats": fst, "import_entry_points": ust,
                                "widths_covered_1_64": sum(1 for w in range(1, 65) if str(w) in by_bits)},
         "pairs_checked": len(rows) * (len(rows) - 1) // 2,
         "pairs_not_disjoint": [[i, j, v] for i, j, v, _ in pairs_bad],
         "unmodelled": ["float16/float32/fixed point/FXP/linear quantiser import+export (Go-side search only)",
-                       "FloPoCo import/export (external fp2bin/bin2fp)", "BMNumberConfig.OmitPrefix", "ImportBytes/ImportUint/CastType",
+                       "FloPoCo import/export (external fp2bin/bin2fp)", "BMNumberConfig.OmitPrefix",
+                       "LoadLinearDataRangesFromFile (the harness sets the ranges map directly)", "serve.go HTTP front end",
+                       "CastType to sized (float/dynamic) types is used by the pattern-first search but not modelled",
                        "negative widths of ExportBinaryNBits"],
     })
 
@@ -553,6 +653,11 @@ def replay(rep, path):
         open(f, "w").write(obj["input_hex"] + "\n")
         t = harness(hbin, ["numfile", f])
         _, fails, _ = compare_nums(t, "")
+        report_classes(rep, [x for x in fails if x[0] == kind], known, lambda c, x, n: dict(obj, what=x[1], implementation_line=x[3][:600]))
+    elif obj.get("mode") == "uints":
+        f = os.path.join(d, "replay-uints.txt")
+        open(f, "w").write(obj["input"] + "\n")
+        _, fails, _ = compare_uints(harness(hbin, ["uintfile", f]), "")
         report_classes(rep, [x for x in fails if x[0] == kind], known, lambda c, x, n: dict(obj, what=x[1], implementation_line=x[3][:600]))
     elif obj.get("mode") == "floats":
         f = os.path.join(d, "replay-floats.txt")
